@@ -263,6 +263,9 @@ func resolveAll(c Case, limit int) []*readerModel {
 					continue
 				}
 				matched = true
+				if v.Incompat && !aggCompatible(v.Agg, in.Kind) {
+					continue // rejected pair: no stream, the other matching views are unaffected
+				}
 				name, unit := v.Rename, v.Unit
 				if name == "" {
 					name = instName(i)
